@@ -107,6 +107,10 @@ def op_strategies(nparts, ngroups, profile):
                       traits=profile.get('traits', True),
                       demand_hi=profile.get('demand_hi', 8)),
         'rm': st.tuples(st.just('rm'), idx).map(list),
+        'clone': st.tuples(st.just('clone'), idx,
+                           st.sampled_from([1, 5, 50, 100, 100]),
+                           st.sampled_from([[0, 0, 0], [0, 0, 0], [1, 0, 0],
+                                            [1, 1, 1], [0, 2, 0]])).map(list),
         'prio': st.tuples(st.just('prio'), idx,
                           st.sampled_from([0, 1, 5, 50, 100])).map(list),
         'move': st.tuples(st.just('move'), idx, st.integers(0, 7)).map(list),
@@ -144,7 +148,7 @@ def op_strategies(nparts, ngroups, profile):
 
 
 DEFAULT_WEIGHTS = {
-    'app': 10, 'rm': 2, 'prio': 1, 'move': 1, 'srv': 1, 'rmsrv': 1,
+    'app': 10, 'clone': 2, 'rm': 2, 'prio': 1, 'move': 1, 'srv': 1, 'rmsrv': 1,
     'readd': 1, 'down': 2, 'up': 2, 'freeze': 1, 'unfreeze': 1, 'bl': 1,
     'renew': 1, 'idg': 1, 'rmidg': 1, 'strat': 1, 'adv': 2, 'adv_ret': 1,
     'tick': 1, 'cycle': 8,
